@@ -238,6 +238,15 @@ def run(ctx: Ctx) -> None:
     for (sid, _reason, _detail_), row in sigbad.items():
         must_by_slot.setdefault(sid, []).append({"np": row["np"], "kw": sorted(row["kw"])})
 
+    # fact: same-named parameters whose default differs between original and substitute (None / sentinel in the
+    # substitute means "defer to the original" and is not a difference)
+    default_diffs: dict[str, list[str]] = {}
+    for s in usable:
+        od = {p["n"]: p.get("r") for p in s["orig"] if p.get("d")}
+        for p in s["sub"]:
+            if p.get("d") and p["n"] in od and p.get("r") not in (od[p["n"]], "None", "<sentinel>"):
+                default_diffs.setdefault(s["id"], []).append(p["n"])
+    ctx.extra["substitute_defaults_differ"] = default_diffs
     group_of = {s["id"]: s.get("group", s["id"]) for s in usable}
     # ---- spec -> code
     comps = sorted({c for s in usable for c in s["components"]})
@@ -257,7 +266,7 @@ def run(ctx: Ctx) -> None:
             base_h = {}
         changed = {s["components"][0] for s in usable if s.get("src", {}).get("file") and base_h.get(s["src"]["file"]) not in (None, s["src"]["hash"])}
         ctx.extra["substitutes_changed_since_baseline"] = sorted(changed)[:40]
-        comp_list = sorted(set(comp_list[: max(40, len(comp_list) // 3)]) | explicit | changed)
+        comp_list = sorted(set(comp_list[: max(40, len(comp_list) // 3)]) | explicit | changed | {s["components"][0] for s in usable if s["id"] in default_diffs})
     chunks = [comp_list[i::28] for i in range(28)]
     tasks = [{"fn": "harness.formjobs:bindcheck_job", "args": {"forms": chk}, "timeout": 900}]
     for ch in chunks:
@@ -267,7 +276,8 @@ def run(ctx: Ctx) -> None:
         fb = {sid: forms_by_slot.get(sid, []) for c in ch for sid in by_comp[c]}
         mb = {sid: must_by_slot.get(sid, []) for c in ch for sid in by_comp[c]}
         tasks.append({"fn": "harness.formjobs:forms_job", "args": {"components": allc, "forms_by_slot": fb, "must_by_slot": mb, "max_base": 2 if ctx.quick else 3,
-                                                                   "max_forms": 16 if ctx.quick else 100000, "budget_s": 420 if ctx.quick else 2400, "seed": ctx.seed},
+                                                                   "max_forms": 16 if ctx.quick else 100000, "budget_s": 420 if ctx.quick else 2400, "seed": ctx.seed,
+                                                                   "default_diffs": {sid: default_diffs[sid] for c in ch for sid in by_comp[c] if sid in default_diffs}},
                       "timeout": 700 if ctx.quick else 3000})
     res = run_tasks(tasks, nworkers=14, timeout=3400)
     executed = 0
